@@ -23,8 +23,10 @@ func rulesC09(c *Ctx, r *Report) {
 	r.explain("Decides: (T1-T3) each shipped matrix PAM120/160/250, BLOSUM45/62/80 is assigned exactly once, in an init, from a literal whose constant entries are complete over its alphabet (which contains the 20 standard residues and Gap), symmetric, with {Gap,Gap}=0, and nothing else in the module writes it — the property's last sentence for every entry; (T4) Levenshtein's initialiser stores 0 on the i==j edge and -1 on the other for all byte pairs, by SSA shape; (ORD-M) decideOnStep returns a maximal argument in all 13 weak orderings; (SIB1/SIB2) the Global and Local recurrences agree symbolically. Not decided: optimality itself, equality with the edit distance. Added rules: (CLAMP) Local's clamp on every store path (optimality of Local needs the floor at zero); T4 accepts counted and range-int loops over 0..255 with no other exit. (REV) shared from C08: steps completely reversed, or back-filled into a buffer that holds the longest path — the traceback cannot panic on long alignments; (PURE) Global/Local and what they call keep no state between calls and write none of a, b, m (a score table cached across calls answers for an edited matrix with stale scores); (T4, extended) the Levenshtein map is never stored into another variable (an alias edited later edits the table).")
 	r.assume("compile-time constant evaluation by go/types; SubstitutionMatrix.Get is the only reader of the tables in the aligners")
 	rulesLocalClamp(c, r)
-	rulesStepsReversed(c, r) // the steps come out in order and their buffer holds the longest path (no panic on long alignments)
-	rulesPureAlign(c, r)     // the score lookups read the matrix as it is now: no state kept between calls, no writes
+	rulesTraceFollowsFill(c, r) // the traceback moves as the fill read, and Local's start offsets are those of its first cell: the steps returned have the score returned
+	rulesFillAllCells(c, r)     // every cell of the table is computed: no early stop of the fill on a "good enough" score
+	rulesStepsReversed(c, r)    // the steps come out in order and their buffer holds the longest path (no panic on long alignments)
+	rulesPureAlign(c, r)        // the score lookups read the matrix as it is now: no state kept between calls, no writes
 	p := c.pkg("align")
 	if p == nil {
 		r.undecided("T1", "align", "anchor", "", "package align not found")
